@@ -202,3 +202,27 @@ def dpos(d, k, sorted_=False):
 
 
 dpos_exact = dpos
+
+
+# ghost call log, native side: generators hand in recording stand-ins whose `.calls` is a list of
+# (method, args, kwargs) in call order (see natives/*_gen.py: Recorder)
+def _log(obj, m):
+    return [c for c in getattr(obj, "calls", []) if c[0] == m]
+
+
+def calls(obj, m):
+    return len(_log(obj, m))
+
+
+def call_kw(obj, m, k, name):
+    return _log(obj, m)[k][2].get(name)
+
+
+def call_pos(obj, m, k, i):
+    a = _log(obj, m)[k][1]
+    return a[i] if i < len(a) else None
+
+
+def call_seq(obj, m, k):
+    target = _log(obj, m)[k]
+    return next(i for i, c in enumerate(getattr(obj, "_all_calls", getattr(obj, "calls", []))) if c is target)
